@@ -12,7 +12,7 @@ import math
 
 import numpy as np
 
-from .. import contracts, gen, geom
+from .. import aging, contracts, gen, geom
 
 PROPERTY = "C13"
 RULE = ("Convex polyhedra/polygons from G-convex/G-poly incl. cyclic (points on a sphere, boxes, regular prisms, rectangles, "
@@ -37,7 +37,8 @@ REQUIRED_MONITORS = ["minimal_bounding_sphere", "minimal_bounding_circle", "mini
                      "minimal_centered_bounding_circle", "maximal_centered_bounded_sphere", "maximal_centered_bounded_circle",
                      "circumsphere", "circumcircle", "insphere", "incircle", "curved-balls", "radius-getters"]
 REQUIRED_CLASSES = ["exists:circumsphere", "none:circumsphere", "exists:insphere", "none:insphere", "exists:circumcircle",
-                    "none:circumcircle", "exists:incircle", "none:incircle", "polygon:cw", "polygon:nonconvex", "polyhedron:nonconvex"]
+                    "none:circumcircle", "exists:incircle", "none:incircle", "polygon:cw", "polygon:nonconvex", "polyhedron:nonconvex",
+                    "history:aged-object"]
 TOL = 1e-6
 
 
@@ -463,6 +464,14 @@ _TIER = {"tier": "quick"}
 _ball_cache = {}
 
 
+def _maybe_age(i, s, rng, rec, info):
+    """One case in three judges an object with a past (reads that fill whatever the object memoises, then moves, resizes,
+    a semi-axis assigned, diagonalize_inertia / to_hoomd) - the ball monitors read the current public geometry."""
+    if (i // 20) % 3 == 1:
+        info["history"] = aging.age(s, rng)
+        rec.cls("history:aged-object")
+
+
 def run_case(i, rng, rec, tier, state):
     cs = state["cs"]
     _TIER["tier"] = tier
@@ -504,6 +513,7 @@ def run_case(i, rng, rec, tier, state):
         rec.cls("polygon:" + ("convex" if convex else "nonconvex"))
         rec.cls("polykind:" + kind)
         info = {"class": type(s).__name__, "vertices": V, "normal_arg": nrm, "kind": kind}
+        _maybe_age(i, s, rng, rec, info)
         _query(rec, s, CPOLY_BALLS if use_convex else POLY_BALLS, rng, info)
         rec.nontriv(V, nrm)
         if i < 8:
@@ -516,6 +526,7 @@ def run_case(i, rng, rec, tier, state):
             s = cs.Polyhedron(V.copy(), [list(f) for f in faces], faces_are_convex=True)
             rec.cls("polyhedron:nonconvex")
             info = {"class": "Polyhedron", "kind": c["kind"], "vertices": V, "faces": faces}
+            _maybe_age(i, s, rng, rec, info)
             _query(rec, s, PH_BALLS, rng, info)
             rec.nontriv(V, "mesh")
             return
@@ -540,6 +551,7 @@ def run_case(i, rng, rec, tier, state):
         rec.cls("polyhedron:convex")
         rec.cls("phkind:" + kind.split(":")[0])
         info = {"class": type(s).__name__, "kind": kind, "vertices": P}
+        _maybe_age(i, s, rng, rec, info)
         _query(rec, s, members, rng, info)
         rec.nontriv(P[np.lexsort(P.T)], type(s).__name__)
         if i < 8:
@@ -553,6 +565,7 @@ def run_case(i, rng, rec, tier, state):
     suffix = "circle" if which in ("Circle", "Ellipse") else "sphere"
     rec.cls("curved:" + which)
     info = {"class": which, "axes": ax, "center": cen}
+    _maybe_age(i, s, rng, rec, info)
     _query(rec, s, ["minimal_bounding_" + suffix, "minimal_centered_bounding_" + suffix, "maximal_bounded_" + suffix,
                     "maximal_centered_bounded_" + suffix], rng, info)
     if np.any(cen != 0) or len(set(ax)) > 1:
